@@ -257,18 +257,34 @@ bool OPN2::setupLocked()
             m_musicMode == MODE_RSXX);
 }
 
+#ifdef OPNMIDI_VERIF
+extern "C" { void (*opnmidi_verif_regtap)(const void *, unsigned, unsigned, unsigned, unsigned, int) = NULL; }
+#endif
+
 void OPN2::writeReg(size_t chip, uint8_t port, uint8_t index, uint8_t value)
 {
+#ifdef OPNMIDI_VERIF
+    if(opnmidi_verif_regtap)
+        opnmidi_verif_regtap(this, (unsigned)chip, port, index, value, 0);
+#endif
     m_chips[chip]->writeReg(port, index, value);
 }
 
 void OPN2::writeRegI(size_t chip, uint8_t port, uint32_t index, uint32_t value)
 {
+#ifdef OPNMIDI_VERIF
+    if(opnmidi_verif_regtap)
+        opnmidi_verif_regtap(this, (unsigned)chip, port, (unsigned)index, (unsigned)value, 0);
+#endif
     m_chips[chip]->writeReg(port, static_cast<uint8_t>(index), static_cast<uint8_t>(value));
 }
 
 void OPN2::writePan(size_t chip, uint32_t index, uint32_t value)
 {
+#ifdef OPNMIDI_VERIF
+    if(opnmidi_verif_regtap)
+        opnmidi_verif_regtap(this, (unsigned)chip, 0, (unsigned)index, (unsigned)value, 1);
+#endif
     m_chips[chip]->writePan(static_cast<uint16_t>(index), static_cast<uint8_t>(value));
 }
 
